@@ -84,6 +84,8 @@ type ParamsPatch struct {
 	MaxLimit uint64 `json:"max_limit,omitempty"`
 	// stream
 	ValFee string `json:"val_fee,omitempty"` // sdk.Dec string; "nil" = nil Dec
+	// Steer (valid enterprise patches): adapt the patch to the orders in flight when the proposal is built (see steerEntParams)
+	Steer int `json:"steer,omitempty"`
 	// authority: 0 gov (correct), 1 an account (Actor), 2 garbage string
 	Authority int `json:"authority,omitempty"`
 }
